@@ -236,6 +236,18 @@ func (r *c18Run) evaluate(res coopResult) error {
 	}
 	states := modelStates(append(append([]hOp{}, r.c.Pre...), r.c.Ops...))
 	base := len(r.c.Pre)
+	// after everything returned, one more request must see the final state
+	// (a stale snapshot installed during the interleaving shows up here)
+	final, ferr := doReadyz(r.h)
+	if ferr != nil {
+		return ferr
+	}
+	if msg := checkResp(final, states[len(states)-1]); msg != "" {
+		return fmt.Errorf("request after all concurrent operations returned: %s (response %d %v; updates %v after %v; schedule %v)", msg, final.Code, final.Body, r.c.Ops, r.c.Pre, res.Trace)
+	}
+	if r.h.IsReady() != stateReady(states[len(states)-1]) {
+		return fmt.Errorf("IsReady()=%v after all concurrent operations, model %v", r.h.IsReady(), stateReady(states[len(states)-1]))
+	}
 	for i := 0; i < r.c.Requests; i++ {
 		if r.rerr[i] != nil {
 			return r.rerr[i]
@@ -260,6 +272,8 @@ func (r *c18Run) evaluate(res coopResult) error {
 }
 
 func execC18Conc(c c18ConcCase) Outcome {
+	coopYieldAfterUnlock = true
+	defer func() { coopYieldAfterUnlock = false }()
 	r := newC18Run(c)
 	choose := func(k, n int) int {
 		if len(c.Schedule) == 0 {
@@ -327,6 +341,8 @@ func TestC18_DFS(t *testing.T) {
 	}
 	si, sn := shard()
 	all := true
+	coopYieldAfterUnlock = true
+	defer func() { coopYieldAfterUnlock = false }()
 	for pi, p := range progs {
 		if pi%sn != si {
 			continue
@@ -348,7 +364,7 @@ func TestC18_DFS(t *testing.T) {
 				return err
 			}
 		}
-		runs, exhausted, err, res := dfsSchedules(mk, -1, envInt("VERIF_SCHED_BUDGET", 200000))
+		runs, exhausted, err, res := dfsSchedules(mk, -1, envInt("VERIF_SCHED_BUDGET", 30000))
 		if ie, ok := err.(*infraError); ok {
 			infraExit(ie.msg)
 		}
@@ -444,6 +460,17 @@ func execC18Wait(c c18WaitCase) Outcome {
 
 func TestC18_Wait(t *testing.T) {
 	RunProp(t, "c18.wait", func(rt *rapid.T) c18WaitCase {
+		two := func(max int) []hOp {
+			n := rapid.IntRange(0, max).Draw(rt, "n")
+			ops := make([]hOp, n)
+			for i := range ops {
+				ops[i] = hOp{K: pick(rt, "k", []string{"add", "ready", "ready"}), C: pick(rt, "c", []string{"a", "b"})}
+			}
+			return ops
+		}
+		if rapid.Bool().Draw(rt, "twonames") {
+			return c18WaitCase{Pre: two(4), Then: two(5), Cancel: rapid.Bool().Draw(rt, "cancel")}
+		}
 		return c18WaitCase{Pre: genHOps(rt, 4), Then: genHOps(rt, 3), Cancel: rapid.Bool().Draw(rt, "cancel")}
 	}, execC18Wait)
 }
